@@ -157,6 +157,17 @@ class Dst(fm.TimeComponent):
         pass
 
 
+class LagTag(fm.TimeDelayAdapter):
+    """a user-defined time-delay adapter (zero shift) that rewrites the metadata passing through it: adds one key"""
+
+    def with_delay(self, time):
+        return time
+
+    def _get_info(self, info):
+        in_info = self.exchange_info(info)
+        return in_info.copy_with(lag_days=2)
+
+
 class Relay(fm.TimeComponent):
     """takes everything from its input by transfer rule and republishes it on two outputs, each with one own metadata key"""
 
@@ -255,7 +266,7 @@ class C07(Property):
                     c["units"] = rnd.choice([None, "m", "km"]) if p["units"] in ("m", "km") else rnd.choice([None, p["units"]])
                 if rnd.random() < 0.8:
                     c["mask"] = rnd.choice(["FLEX", None, p["mask"], "rawA" if p["mask"] == "A" else p["mask"]])
-        adapter = rnd.choice([None, None, None, "scale", "scale", "v2g", "g2v", "regrid", "sum", "relay"])
+        adapter = rnd.choice([None, None, None, "scale", "scale", "v2g", "g2v", "regrid", "sum", "relay", "dmeta"])
         if ncons == 2 and adapter not in (None, "scale"):
             adapter = None
         if adapter in (None, "scale") and ncons == 1 and p["grid"] is None and rnd.random() < 0.5:
@@ -344,8 +355,9 @@ class C07(Property):
             eunits = punits
             if ada == "sum":
                 if c["units"] is not None:
-                    # per-time sum multiplies by time: consumer units must match units*s
-                    return "unconstrained", None, True
+                    # per-time sum multiplies by time: the adapter delivers units*s, which none of the catalogue's
+                    # consumer units (m, km, s) can be converted from
+                    return "error", None, unconstrained
                 eunits = punits + "*s"
             if c["units"] is not None and not o_compatible(eunits, c["units"]):
                 return "error", None, unconstrained
@@ -433,7 +445,7 @@ class C07(Property):
                 continue
             if ada:
                 a = {"scale": lambda: fm.adapters.Scale(1.0), "v2g": lambda: fm.adapters.ValueToGrid(None), "g2v": lambda: fm.adapters.GridToValue(np.mean),
-                     "regrid": fm.adapters.RegridNearest, "sum": lambda: fm.adapters.SumOverTime(per_time=True)}[ada]()
+                     "regrid": fm.adapters.RegridNearest, "sum": lambda: fm.adapters.SumOverTime(per_time=True), "dmeta": LagTag}[ada]()
                 adas.append(a)
                 x = x >> a
             x >> d.inputs["in"]
@@ -507,7 +519,7 @@ class C07(Property):
                 # 6. the datum pulled at connect matches the agreed metadata
                 data = d.connector.in_data["in"]
                 mag = data.magnitude
-                if e["grid"] in GRIDS and ada in (None, "scale", "relay"):
+                if e["grid"] in GRIDS and ada in (None, "scale", "relay", "dmeta"):
                     expv = o_convert(mg.located(GRIDS[e["grid"]]), p["units"], e["units"])
                     keep = ~located_mask(e["grid"], 0.0 if e["mask"] == "A" else 1.0) if e["mask"] in ("A", "B") else np.ones(expv.shape, bool)
                     if mag.shape != (1,) + expv.shape or not np.allclose(np.ma.getdata(mag)[0][keep], expv[keep], rtol=1e-9):
@@ -524,6 +536,16 @@ class C07(Property):
                         out.viol("delivered_data_vs_metadata", f"C{k}: value 7.0 {p['units']} spread over the grid arrives as {np.ma.getdata(mag).ravel()[:3].tolist()} {data.units}, expected {expv} {e['units']}; {tag}", spec=spec)
                         return out
                     out.count("value_to_grid_data_checked")
+            for a in adas:
+                # the sending end of the adapter-to-input link must say what the input was told
+                ai, di = a.info, dsts[0].inputs["in"].info
+                out.count("adapter_ends_compared")
+                if ada == "dmeta" and (ai.meta.get("lag_days") != 2 or di.meta.get("lag_days") != 2):
+                    out.viol("adapter_end_metadata", f"metadata rewritten by the adapter: adapter.info says lag_days={ai.meta.get('lag_days')!r}, input.info says {di.meta.get('lag_days')!r}, expected 2 on both; {tag}", spec=spec)
+                    return out
+                if ada in ("scale", "dmeta") and len(dsts) == 1 and not (ai.grid == di.grid or ai.grid.compatible_with(di.grid)):
+                    out.viol("adapter_end_metadata", f"adapter.info grid {ai.grid} vs input.info grid {di.grid}; {tag}", spec=spec)
+                    return out
             if relay is not None:
                 # the relay's own link ends: its input agrees with the producer, each output carries its own key only
                 rin, o1, o2 = relay.inputs["in"].info, relay.outputs["out"].info, relay.outputs["out2"].info
@@ -554,7 +576,7 @@ class C07(Property):
 
     def coverage_gaps(self, counters, tier):
         need = ["exchanges", "successful_exchanges", "rejected_exchanges", "two_consumer_cases", "fixed_mask_metadata_checked", "data_checked_against_metadata",
-                "adapter_None", "adapter_scale", "adapter_v2g", "adapter_g2v", "adapter_regrid", "adapter_sum", "adapter_relay", "relay_links_checked", "metadata_handed_over_on_every_round", "static_outputs", "value_to_grid_data_checked"]
+                "adapter_None", "adapter_scale", "adapter_v2g", "adapter_g2v", "adapter_regrid", "adapter_sum", "adapter_relay", "relay_links_checked", "metadata_handed_over_on_every_round", "static_outputs", "value_to_grid_data_checked", "adapter_dmeta", "adapter_ends_compared"]
         return [f"{k} never observed" for k in need if not counters.get(k)]
 
 
